@@ -1,5 +1,7 @@
 """C09 Saved logits restore exactly; saved artefacts suffice to rebuild outputs."""
 import os
+import io
+import contextlib
 import pickle
 import re
 
@@ -20,7 +22,7 @@ ASSUMPTIONS = ['no stored logit is exactly 0.0 (0.0 is the sparse format\'s "pru
                'the end-to-end leg uses transcriptions with plain single spaces, geometry inside the page; both layouts go through the same decoder and exporter']
 N = {'quick': 500, 'thorough': 30000}
 CLASSES = ['roundtrip', 'roundtrip_bytes', 'subset', 'superset', 'legacy', 'missing_component', 'dense', 'rebuild', 'rebuild', 'empty_page']
-REQUIRED = ['legacy:characters_only', 'legacy:coords_only', 'roundtrip_lines', 'untouched_checked', 'missing_reported', 'dense_checked', 'rebuild_pages', 'rebuild_lines_decoded', 'rebuild_alto_compared', 'legacy_checked', 'reloads', 'parse_folder_rebuilds', 'float32_lines']
+REQUIRED = ['refused_saves_over_an_existing_file', 'partial_file_redecodes', 'legacy:characters_only', 'legacy:coords_only', 'roundtrip_lines', 'untouched_checked', 'missing_reported', 'dense_checked', 'rebuild_pages', 'rebuild_lines_decoded', 'rebuild_alto_compared', 'legacy_checked', 'reloads', 'parse_folder_rebuilds', 'float32_lines']
 CHARSETS = [list('abcdefgh '), list('abc '), ['a', 'b', 'é', 'ạ̈', 'שׁ', '\U0001F600', ' '], [chr(0x61 + k) for k in range(26)] + [' ', '.', ',']]
 
 
@@ -143,6 +145,26 @@ def check(case, mon, ctx):
                 mon.violation('missing-component-reported', {'component': comp, 'line': victim.id})
             except Exception:
                 pass
+        # history on the file: a good file written earlier to the same path survives the refused save
+        good = os.path.join(ctx.tmpdir, 'good.logits')
+        setattr(victim, comp, {'logits': random_sparse(np.random.default_rng(3), 4, len(victim.characters or 'abc') if comp != 'characters' else 3),
+                               'characters': ['a', 'b', '​'], 'logit_coords': [0, 1]}[comp])
+        if comp == 'logits' and victim.characters is not None:
+            victim.logits = random_sparse(np.random.default_rng(3), 4, len(victim.characters))
+        try:
+            a.save_logits(good)
+            before = open(good, 'rb').read()
+            setattr(victim, comp, None)
+            try:
+                a.save_logits(good)
+            except Exception:
+                pass
+            mon.count('refused_saves_over_an_existing_file')
+            after = open(good, 'rb').read() if os.path.exists(good) else b''
+            if after != before:
+                mon.violation('missing-component-reported', {'note': 'the refused save destroyed the file that was at that path', 'component': comp, 'bytes_before': len(before), 'bytes_after': len(after)})
+        finally:
+            setattr(victim, comp, None)
         # tolerant mode must still save every complete line
         b = skeleton(L, a)
         try:
@@ -271,6 +293,9 @@ def check_dense(b, mon, step='after load'):
 def check_rebuild(a, case, mon, ctx):
     L, D = ctx.L, ctx.D
     xmlf, logf = os.path.join(ctx.tmpdir, 'r.xml'), os.path.join(ctx.tmpdir, 'r.logits')
+    # the lines carry a confidence estimate from an earlier stage; PAGE XML stores it rounded to three decimals (0.2996 -> 0.300)
+    for k, l in enumerate(a.lines_iterator()):
+        l.transcription_confidence = 0.2 + 0.1 * (k % 8) - 0.0004
     a.to_pagexml(xmlf)
     a.save_logits(logf)
     b = L.PageLayout(file=xmlf)
@@ -289,14 +314,46 @@ def check_rebuild(a, case, mon, ctx):
             else:
                 pb = pl
         mon.count('rebuild_lines_decoded', len(ta))
+        if name == 'greedy':
+            greedy_texts = dict(tb)
         if ta != tb:
             mon.violation('rebuilt-layout-redecodes-identically', {'decoder': name, 'original': ta, 'rebuilt': tb})
+    # a partial logits file (one line in the middle is missing) and stale texts in the XML: every line that has logits is decoded again
+    lines_a = list(a.lines_iterator())
+    if len(lines_a) >= 3:
+        import copy
+        stale = copy.deepcopy(a)
+        for l in stale.lines_iterator():
+            l.transcription = 'STALE'
+        stale.to_pagexml(xmlf)
+        miss = lines_a[len(lines_a) // 2].id
+        d = a._gen_logits()
+        for key in (d, d['line_characters'], d['logit_coords']):
+            key.pop(miss)
+        c = L.PageLayout(file=xmlf)
+        c.load_logits(pickle.dumps(d, protocol=4))
+        dec = D.GreedyDecoder(chars + [D.BLANK_SYMBOL])
+        with contextlib.redirect_stderr(io.StringIO()):
+            import logging
+            logging.disable(logging.CRITICAL)
+            try:
+                ctx.pp.PageDecoder(dec).process_page(c)
+            finally:
+                logging.disable(logging.NOTSET)
+        full = greedy_texts
+        mon.count('partial_file_redecodes')
+        for l in c.lines_iterator():
+            want = 'STALE' if l.id == miss else full[l.id]
+            if l.transcription != want:
+                mon.violation('rebuilt-layout-redecodes-identically', {'note': 'logits file without line %s: a line that has logits was not decoded again' % miss, 'line': l.id, 'got': l.transcription, 'expected': want})
+                break
+    thr = 0.3 if case['seed'] % 2 else 0.0            # with a drop threshold that lies between a stored estimate and its rounded form, and without
     try:
-        xa = a.to_altoxml_string()
+        xa = a.to_altoxml_string(min_line_confidence=thr)
     except Exception as e:
         xa = 'EXC ' + type(e).__name__
     try:
-        xb = b.to_altoxml_string()
+        xb = b.to_altoxml_string(min_line_confidence=thr)
     except Exception as e:
         xb = 'EXC ' + type(e).__name__
     if xa.startswith('EXC') and xb.startswith('EXC'):
